@@ -92,7 +92,7 @@ def main():
             return 3
         fired = False
         for p, obs in res.items():
-            bad = [o for o in obs if o.bad()]
+            bad = [o for o in obs if o.bad() and o.status != "unclassified"]
             seen = set()
             print("%s: %d obligations, %d not discharged" % (p, len(obs), len(bad)))
             for o in bad:
